@@ -5,7 +5,10 @@
 (* state machine: one TLC step per recorded event, the event must be       *)
 (* allowed by Check in the model state reached so far (Immutable,          *)
 (* HashStable, EqIsPyEq, NeIsNotPyEq, DictFindsEqual, HashRespectsEq,      *)
-(* CopyKeepsFields, BuiltHashable, BuiltAsGiven ...)                       *)
+(* CopyKeepsFields, BuiltHashable, BuiltAsGiven ...); round 6: lifetimes   *)
+(* end (Drop) and later objects are recorded with the address they got -   *)
+(* the clauses never read it, the report says whether it was a dead        *)
+(* object's.                                                               *)
 (* and the successor state is Post.  The step relation is total: the       *)
 (* first clause a trace contradicts becomes its verdict and the trace      *)
 (* stops; every trace ends with exactly one printed verdict line.          *)
@@ -17,7 +20,7 @@ VARIABLES tid, l, verdict, drift
 Traces == ndJsonDeserialize(IOEnv.TRACE_FILE)
 
 Full(rec, r) ==
-    [k |-> r.k, b |-> r.b, h |-> r.h, exc |-> r.exc, v |-> r.v,
+    [k |-> r.k, b |-> r.b, h |-> r.h, exc |-> r.exc, v |-> r.v, ad |-> r.ad,
      proj |-> [q \in 1..Len(r.proj) |->
                  [tree |-> rec.trees[r.proj[q].tr], hashed |-> r.proj[q].hashed,
                   h |-> r.proj[q].h]]]
@@ -38,13 +41,14 @@ Next ==
           THEN /\ objs' = po.objs
                /\ dict' = po.dict
                /\ cmemo' = po.cm
+               /\ heap' = po.hp
                /\ last' = [ev |-> e.ev, chk |-> c, dev |-> ""]
                /\ l' = l + 1
                /\ drift' = drift + (IF Drift(Cur, e.ev, r) THEN 1 ELSE 0)
                /\ UNCHANGED verdict
           ELSE /\ verdict' = c
                /\ last' = [ev |-> e.ev, chk |-> c, dev |-> ""]
-               /\ UNCHANGED << objs, dict, cmemo, l, drift >>
+               /\ UNCHANGED << objs, dict, cmemo, heap, l, drift >>
     /\ UNCHANGED tid
 
 \* the S-layer invariant holds in every state the judge accepts (belt and braces: Check
@@ -70,10 +74,16 @@ Done == verdict # "" \/ l > Len(Traces[tid].evs)
 Report ==
     Done =>
       LET rec == Traces[tid] IN
-      IF verdict = "" THEN PrintT(ToJson([id |-> rec.id, v |-> "OK", n |-> l - 1, drift |-> drift]))
+      \* reu: how many objects of the accepted history were given the address of a dead one
+      IF verdict = "" THEN PrintT(ToJson([id |-> rec.id, v |-> "OK", n |-> l - 1, drift |-> drift,
+                                          reu |-> Cardinality(OnReusedAddr(heap))]))
       ELSE LET ev == last.ev IN
            PrintT(ToJson([id |-> rec.id, v |-> verdict, n |-> l, drift |-> drift,
                           op |-> ev.op, fn |-> ev.fn, md |-> ev.md,
+                          reu |-> Cardinality(OnReusedAddr(heap)),
+                          \* one of the objects the step is about sits at the address of a dead one
+                          addr |-> IF ev.op # "New" /\ {ev.i, ev.j} \cap OnReusedAddr(heap) # {}
+                                   THEN "reused" ELSE "",
                           \* how the compared / looked-up objects came to be here ("" = built here)
                           via |-> { arrival[k] : k \in { k2 \in 1..Len(arrival) :
                                        k2 \in {ev.i, ev.j} \/ ev.op \notin {"Eq", "Ne"} } } \ {""},
